@@ -119,14 +119,25 @@ static LOG_LEN: AtomicUsize = AtomicUsize::new(LB);
 static CONSUMED_BYTES: AtomicUsize = AtomicUsize::new(LB + 0x100);
 static BAD_ORDER: AtomicUsize = AtomicUsize::new(LB + 0x200);
 static mut LOG: [u8; 32] = [0xA5; 32];
+static mut CHUNKS: [usize; 8] = [0x21; 8];
+static WCALL: AtomicUsize = AtomicUsize::new(LB + 0x300);
 
 pub fn file_write_stub(_f: &mut File, buf: &[u8]) -> std::io::Result<usize> {
     let fail: bool = any();
     if fail {
         return Err(std::io::Error::from_raw_os_error(5));
     }
-    let k: usize = any();
-    assume(k >= 1 && k <= buf.len());
+    // how many bytes each write(2) accepts is a size: enumerated per instance (CHUNKS)
+    let c = WCALL.load(Ordering::SeqCst) - (LB + 0x300);
+    WCALL.store(LB + 0x300 + c + 1, Ordering::SeqCst);
+    // SAFETY: single-threaded harness.
+    let mut k = unsafe { CHUNKS[if c < 8 { c } else { 7 }] };
+    if k > buf.len() {
+        k = buf.len();
+    }
+    if k == 0 {
+        k = 1;
+    }
     let len = LOG_LEN.load(Ordering::SeqCst) - LB;
     assert!(len + k <= 32, "BOUND: ghost file too small");
     for i in 0..k {
@@ -152,7 +163,12 @@ fn on_activity(kind: u32, n: usize) {
 }
 
 /// Stream sink (T = u32, 4 bytes little-endian): `n` symbolic samples in the window.
-pub fn write_before_consume(n: usize) {
+pub fn write_before_consume(n: usize, chunks: &[usize]) {
+    for i in 0..8 {
+        // SAFETY: single-threaded harness.
+        unsafe { CHUNKS[i] = if i < chunks.len() { chunks[i] } else { 64 } };
+    }
+    WCALL.store(LB + 0x300, Ordering::SeqCst);
     FLAGS.store(FB, Ordering::SeqCst);
     LOG_LEN.store(LB, Ordering::SeqCst);
     CONSUMED_BYTES.store(LB + 0x100, Ordering::SeqCst);
